@@ -205,7 +205,7 @@ def check_ngc_regions(P, ctx):
 
 def check_layouts_all_configs(ctx, load, configs):
     """the layout rules of the other properties, re-evaluated under each configuration's real header"""
-    from . import rules_c02, rules_c03, rules_c19, rules_c08
+    from . import rules_c02, rules_c03, rules_c19, rules_c08, rules_c04
     for cfg in configs:
         P = load(None, cfg, [WITNESS])
         ctx.config = cfg
@@ -214,6 +214,7 @@ def check_layouts_all_configs(ctx, load, configs):
         before = len(ctx.obs)
         rules_c02.check_layout(P, ctx)
         rules_c03.check_layout(P, ctx)
+        rules_c04.check_seq_layout(P, ctx)
         rules_c19.check_pointer_arith(P, ctx)
         rules_c19.check_headers(P, ctx)
         hw = len(P.records['Header']['fields'])
